@@ -925,6 +925,82 @@ func (d *strDom) Call(e *Engine, st *State, site ssa.CallInstruction, callee *ss
 		return outs, true
 	case "unicode/utf16.IsSurrogate":
 		return one(avSym{tag: "utf16.IsSurrogate", payload: args[0]})
+	case "strconv.ParseUint":
+		// digits of a constant base other than 0 (no sign, no prefix, no underscore is accepted then): on a window made
+		// of character cells each confined to one class of hexadecimal digits the value is a linear form of the cells
+		if len(args) == 3 && d.isText(args[0]) {
+			base, okb := st.KnownInt(args[1])
+			lo, hi, okw := d.window(st, args[0])
+			if okb && okw && (base == 16 || base == 10) {
+				j0, j1 := d.at(st, lo), d.at(st, hi)
+				cs := d.cells(st)
+				if j0 >= 0 && j1 < 0 {
+					// the window ends inside a character: a character outside ASCII stands in it, which is no digit
+					bnd := d.boundaries(st)
+					for j := j0; j < len(cs); j++ {
+						if l, _, ok := d.bounds(st, lfAdd(bnd[j], hi, -1)); ok && l >= 0 {
+							break
+						}
+						if cs[j].wide || cs[j].cont {
+							return []CallOut{{St: st, Res: []AV{avConst{constant.MakeInt64(0)}, avSym{id: e.fresh(), tag: "strconv-err", nonNil: true}}}}, true
+						}
+					}
+				}
+				if j0 >= 0 && j1 >= j0 && j1 <= len(cs) {
+					var val AV = avConst{constant.MakeInt64(0)}
+					good, decided := j1 > j0, true
+					for j := j0; j < j1; j++ {
+						c := cs[j]
+						if c.gap {
+							decided = false
+							break
+						}
+						if c.wide {
+							good = false
+							continue
+						}
+						l, h, _ := st.intRange(c.val)
+						var k int64 = -1
+						switch {
+						case l >= '0' && h <= '9':
+							k = '0'
+						case base == 16 && l >= 'a' && h <= 'f':
+							k = 'a' - 10
+						case base == 16 && l >= 'A' && h <= 'F':
+							k = 'A' - 10
+						}
+						if k < 0 {
+							// not within one class: outside all of them?
+							outside := true
+							for _, cl := range hexClasses {
+								if base == 10 && cl.lo != '0' {
+									continue
+								}
+								for b := int64(cl.lo); b <= int64(cl.hi); b++ {
+									if b >= l && b <= h && !st.Excluded(c.val)[b] && !strings.ContainsRune(c.excl, rune(b)) {
+										outside = false
+									}
+								}
+							}
+							if !outside {
+								decided = false
+								break
+							}
+							good = false
+							continue
+						}
+						val = avBin{token.ADD, avBin{token.MUL, avConst{constant.MakeInt64(base)}, val}, avBin{token.SUB, c.val, avConst{constant.MakeInt64(k)}}}
+					}
+					if decided {
+						if good {
+							return []CallOut{{St: st, Res: []AV{val, avNil{}}}}, true
+						}
+						return []CallOut{{St: st, Res: []AV{avConst{constant.MakeInt64(0)}, avSym{id: e.fresh(), tag: "strconv-err", nonNil: true}}}}, true
+					}
+					d.note(st, "unsupported", "strconv.ParseUint is applied to text whose characters the path has not confined to digits or non-digits", site.Pos())
+				}
+			}
+		}
 	case "unicode/utf16.DecodeRune":
 		return one(avSym{tag: "utf16.DecodeRune", payload: avTuple{args[0], args[1]}})
 	case "(*strings.Builder).Grow", "(*strings.Builder).Reset":
